@@ -5,11 +5,22 @@ from ndvc.native import reg, _poly, _coefs, TOL
 
 
 # ------------------------------------------------------------------------------------------ C06
+HISTORY = []
+
+
 def _c06_run(method, n, order, r, x, h, D, extra_rows=2):
     import numdifftools.finite_difference as fd
     from numdifftools.extrapolation import Richardson
     fd.FD_RULES.clear()
-    rule = fd.LogRule(n=n, method=method, order=order)
+    if HISTORY:
+        # the same object used earlier with other orders, then re-configured (as the check does)
+        rule = fd.LogRule(n=n, method=method, order=HISTORY[0])
+        for o in HISTORY:
+            rule.order = o
+            rule.rule(r)
+        rule.order = order
+    else:
+        rule = fd.LogRule(n=n, method=method, order=order)
     w = rule.rule(r)
     T = len(w)
     K = T + extra_rows
@@ -25,6 +36,40 @@ def _c06_run(method, n, order, r, x, h, D, extra_rows=2):
 
 @reg('C06.exact')
 def c06_exact(case):
+    res = _c06_exact_one(case)
+    if not res['reproduced'] and case.get('history'):
+        HISTORY[:] = case['history']
+        try:
+            res2 = _c06_exact_one(case)
+        finally:
+            HISTORY[:] = []
+        if res2['reproduced']:
+            res2['history'] = 'same LogRule object used before with orders %s, then .order = %d' % (case['history'], case['order'])
+            return res2
+    if res['reproduced'] or not case.get('scan'):
+        return res
+    # the solver's model need not be the configuration where the defect is visible: scan the property's grid
+    for n in range(1, 11):
+        for order in range(1, 11):
+            c = dict(case, n=n, order=order)
+            r2 = _c06_exact_one(c)
+            if r2['reproduced']:
+                r2['scanned_to'] = dict(n=n, order=order)
+                return r2
+    return res
+
+
+def _c06_exact_one(case):
+    import numdifftools.finite_difference as fd
+    out = []
+    rep = False
+    try:
+        return _c06_exact_body(case)
+    except Exception as e:      # a valid configuration must not raise
+        return dict(reproduced=True, statement='valid configuration raised', raised=repr(e), n=case['n'], order=case['order'])
+
+
+def _c06_exact_body(case):
     import numdifftools.finite_difference as fd
     out = []
     rep = False
